@@ -67,6 +67,25 @@ def enumerate_layouts():
     return json.loads(p.stdout.strip().splitlines()[-1])
 
 
+def narrowed(v):
+    """second variant: the field loses its most significant bit (blobs: their last unit)."""
+    if len(v) == 3:
+        if v[2] <= 1:
+            return None, None
+        return [v[0], v[1], v[2] - 1], "blob one unit shorter"
+    mask, off = v
+    if mask & (mask - 1) == 0:
+        return None, None  # single-bit field
+    nbytes = max(1, (mask.bit_length() + 7) // 8)
+    new = mask & ~(1 << (mask.bit_length() - 1))
+    # keep the byte count of the mask (the codec derives the field's bytes from it): a mask whose top byte
+    # would become empty is narrowed at the bottom instead
+    if max(1, (new.bit_length() + 7) // 8) != nbytes:
+        new = mask & (mask - 1) if False else mask & ~(mask & -mask)
+        return [new, off], "least significant bit dropped"
+    return [new, off], "most significant bit dropped"
+
+
 def displaced(v):
     if len(v) == 3:
         return [v[0], v[1] + 1, v[2]], "blob one %s later" % {"b": "byte", "w": "word", "dw": "dword"}[v[0]]
@@ -82,7 +101,7 @@ def displaced(v):
 def battery(module, attr):
     m = module.rsplit(".", 1)[-1]
     if attr.endswith("_cdb_bits"):
-        return ["C01", "C13"]
+        return ["C01", "C02", "C13"]
     if m == "scsi_sense":
         return ["C08", "C07"]
     if m in ("scsi_cdb_persistentreserveout",) or "extended_copy" in m:
@@ -92,9 +111,9 @@ def battery(module, attr):
     return ["C04", "C06", "C05", "C12"]
 
 
-def one(job, scale):
+def one(job, scale, variant="displace"):
     module, attr, key, val = job
-    new, how = displaced(val)
+    new, how = displaced(val) if variant == "displace" else narrowed(val)
     tag = re.sub(r"\W+", "_", "%s.%s.%s" % (module.rsplit(".", 1)[-1], attr, key))[:90]
     root = "/dev/shm" if os.path.isdir("/dev/shm") else "/var/tmp"
     d = os.path.join(root, "verif-lay-%s-%d" % (tag, os.getpid()))
@@ -125,14 +144,60 @@ def one(job, scale):
         shutil.rmtree(out, ignore_errors=True)
 
 
+DISPOSITION = [  # (regex on "module:table:key", why a surviving displacement is not a gap)
+    (r"scsi_sense:.*:(?!sense_key$|additional_sense_code$|additional_sense_code_qualifier$)", "sense fields other than response code / sense key / ASC / ASCQ are outside C07/C08 (the properties name those three and printability)"),
+    (r"scsi_enum_modesense:(modesense6_cdb_bits|modeselect6_cdb_bits|power_condition_bits|power_consumption_bits|protocol_specific_logical_unit_bits):",
+     "table is defined but used by no encoder/decoder of the library (dead code)"),
+    (r"PersistentReserveInReadKeys\._header_bits:", "table is defined but not used by the decoder (dead code)"),
+    (r"PersistentReserveInReportCapabilities\._bits:pr_type_mask", "entry is overwritten by the nested pr_type_mask dictionary (dead entry)"),
+    (r"_ata_identify_bits:(general_config|specific_config)", "entry is overwritten after decoding (dead entry)"),
+    (r"ExtendedCopy\._cdb_bits:service_action", "the only valid value is 0 (EXTENDED COPY LID1): a displaced zero is the same CDB"),
+    (r"(_target_descriptor_bits|_cscd_descriptor_bits):lu_id_type", "the only accepted value is 0 (others are refused, C17)"),
+    (r"TestUnitReady\._cdb_bits:opcode", "the operation code is 00h: a displaced zero is the same CDB"),
+    (r"_pci_express_routing_id_bits", "PCIe routing-id designator is not modelled (listed as not asserted in DESIGN.md 10.3)"),
+]
+
+
+def report():
+    path = os.path.join(VERIF, "sensitivity", "layouts.json")
+    rows = json.load(open(path))
+    killed = [r for r in rows if r.get("killed")]
+    surv = [r for r in rows if not r.get("killed")]
+    by = {}
+    for r in killed:
+        k = next(p for p, c in r["checks"].items() if c["exit"] == 1)
+        by[k] = by.get(k, 0) + 1
+    out = ["# Layout sensitivity sweep", "",
+           "`python3 tools/layout_sensitivity.py` displaces every entry of every bit-layout table of the library by one bit",
+           "(one byte for whole-byte fields and blobs) in a scratch copy and runs the checks that should observe it",
+           "(quick tier, reduced example count).", "",
+           "* layout tables: %d, entries: %d" % (len({(r["module"], r["table"]) for r in rows}), len(rows)),
+           "* displaced entries reported by a check: %d (%s)" % (len(killed), ", ".join("%s %d" % kv for kv in sorted(by.items()))),
+           "* not reported: %d, every one with a reason below" % len(surv), "",
+           "| table | entry | disposition |", "|---|---|---|"]
+    unexplained = 0
+    for r in surv:
+        ident = "%s:%s:%s" % (r["module"].rsplit(".", 1)[-1], r["table"], r["key"])
+        why = next((w for rx, w in DISPOSITION if re.search(rx, ident)), None)
+        if why is None:
+            unexplained += 1
+            why = "**UNEXPLAINED**"
+        out.append("| %s %s | %s | %s |" % (r["module"].rsplit(".", 1)[-1], r["table"], r["key"], why))
+    open(os.path.join(VERIF, "sensitivity", "LAYOUTS.md"), "w").write("\n".join(out) + "\n")
+    print("%d entries, %d killed, %d survived (%d unexplained)" % (len(rows), len(killed), len(surv), unexplained))
+
+
 def main():
+    if "--report" in sys.argv:
+        return report()
     ap = argparse.ArgumentParser()
     ap.add_argument("--jobs", type=int, default=6)
     ap.add_argument("--scale", type=float, default=0.15)
     ap.add_argument("--only", default="")
     ap.add_argument("--retry-survivors", action="store_true")
+    ap.add_argument("--variant", default="displace", choices=["displace", "narrow"])
     args = ap.parse_args()
-    path = os.path.join(VERIF, "sensitivity", "layouts.json")
+    path = os.path.join(VERIF, "sensitivity", "layouts.json" if args.variant == "displace" else "layouts_narrow.json")
     old = {}
     if os.path.exists(path):
         old = {(r["module"], r["table"], r["key"]): r for r in json.load(open(path))}
@@ -147,11 +212,13 @@ def main():
                     continue
             elif ident in old and not args.only:
                 continue
+            if args.variant == "narrow" and narrowed(val)[0] is None:
+                continue
             jobs.append((module, attr, key, val))
     print("%d layout entries to do" % len(jobs), flush=True)
     n = 0
     with concurrent.futures.ThreadPoolExecutor(args.jobs) as ex:
-        for r in ex.map(lambda j: one(j, args.scale), jobs):
+        for r in ex.map(lambda j: one(j, args.scale, args.variant), jobs):
             old[(r["module"], r["table"], r["key"])] = r
             n += 1
             print("%-8s %s %s[%s] %s" % ("KILLED" if r["killed"] else "SURVIVED", r["module"].rsplit(".", 1)[-1], r["table"], r["key"],
